@@ -57,7 +57,7 @@ func main() {
 			"hostile_accepted": 3000, "hostile_rejected": 20000, "instance_names_accepted": 1000,
 			"set_ops_union": 2000, "set_ops_difference": 2000, "set_ops_partition": 2000, "set_ops_remove_empty": 1000, "set_union_with_duplicates_across_sets": 500,
 			"set_partition_multi_instance": 500, "set_empty_operands": 300, "set_remove_empty_removed_some": 300,
-			"thorough:fuzz_execs": 1000000,
+			"thorough:fuzz_execs": 400000,
 		},
 		Assumptions: []string{
 			"valid instance name = no leading/trailing/double slash and no reserved keyword as a component; every other byte string (incl. '.', '..', NUL, non-UTF-8) is a valid name, because NewInstanceName and both parsers accept it",
@@ -74,7 +74,7 @@ func body(w *run.Worker) {
 	// it is started first by worker 0 and runs beside the generated campaign.
 	var fuzzDone chan *fuzzResult
 	if rg := os.Getenv("VERIF_REPLAY_GROUP"); w.Thorough() && w.Index == 0 && (rg == "" || rg == "nativefuzz") {
-		budget := int64(3000000)
+		budget := int64(600000) // executions per fuzz target
 		if s := os.Getenv("VERIF_SCALE"); s != "" {
 			if f, err := strconv.ParseFloat(s, 64); err == nil {
 				budget = int64(float64(budget) * f)
@@ -87,10 +87,10 @@ func body(w *run.Worker) {
 		go func() { fuzzDone <- runNativeFuzz(budget, 4) }()
 	}
 
-	w.Cases("codec", w.N(16000, 2400000), func(c *run.Case) { codecCase(c, w) })
-	w.Cases("malformed", w.N(4000, 600000), func(c *run.Case) { malformedCase(c, w) })
-	w.Cases("hostile", w.N(8000, 1200000), func(c *run.Case) { hostileCase(c, w) })
-	w.Cases("sets", w.N(6000, 900000), func(c *run.Case) { setCase(c, w) })
+	w.Cases("codec", w.N(16000, 400000), func(c *run.Case) { codecCase(c, w) })
+	w.Cases("malformed", w.N(4000, 100000), func(c *run.Case) { malformedCase(c, w) })
+	w.Cases("hostile", w.N(8000, 200000), func(c *run.Case) { hostileCase(c, w) })
+	w.Cases("sets", w.N(6000, 150000), func(c *run.Case) { setCase(c, w) })
 	if w.Index == 0 {
 		w.Cases("enumerated", 1, func(c *run.Case) { enumeratedCase(c, w) })
 	}
